@@ -123,3 +123,66 @@ Proof.
   destruct (Z.eqb_spec o p); cbn; [|constructor; congruence].
   destruct (Bool.eqb_spec d e); constructor; congruence.
 Qed.
+
+(* ---- builder handles know their count ---- *)
+Lemma item_len_nonneg args it n : item_len args it = Some n -> 0 <= n.
+Proof.
+  destruct it as [|i|i]; cbn.
+  - intros [= <-]. lia.
+  - destruct (nth_error args i) as [[|len]|]; try discriminate. intros [= <-]. lia.
+  - destruct (nth_error args i) as [[|len]|]; try discriminate. intros [= <-]. lia.
+Qed.
+Lemma inst_len_nonneg args row : forall n, inst_len args row = Some n -> 0 <= n.
+Proof.
+  induction row as [|it r IH]; cbn; intros n H.
+  - injection H as <-. lia.
+  - destruct (item_len args it) as [a|] eqn:Ea; [|discriminate].
+    destruct (inst_len args r) as [b|]; [|discriminate].
+    injection H as <-. apply item_len_nonneg in Ea. specialize (IH b eq_refl). lia.
+Qed.
+(* no row variable, well-kinded: the instantiation keeps the arity of the body *)
+Lemma inst_len_no_rows args row :
+  (forall it, In it row -> item_len args it = Some 1) -> inst_len args row = Some (Z.of_nat (length row)).
+Proof.
+  induction row as [|it r IH]; intros H; [reflexivity|].
+  cbn [inst_len length]. rewrite (H it (or_introl eq_refl)), IH by (intros x Hx; apply H; right; exact Hx).
+  f_equal. lia.
+Qed.
+Lemma inst_len_app args r1 r2 :
+  inst_len args (r1 ++ r2) =
+  match inst_len args r1, inst_len args r2 with Some a, Some b => Some (a + b) | _, _ => None end.
+Proof.
+  induction r1 as [|it r IH]; cbn [app inst_len].
+  - destruct (inst_len args r2); reflexivity.
+  - rewrite IH. destruct (item_len args it), (inst_len args r), (inst_len args r2); try reflexivity.
+    f_equal. lia.
+Qed.
+(* a row variable alone contributes exactly the length of its sequence argument *)
+Lemma inst_len_row args i len : nth_error args i = Some (ASeq len) -> inst_len args [RRow i] = Some (Z.of_nat len).
+Proof. intros H. cbn. rewrite H. f_equal. lia. Qed.
+
+Theorem builder_count_spec s : shape_wf s = true ->
+  exists n, 0 <= n /\ value_outputs s = Some n /\ builder_count s = Some n.
+Proof.
+  destruct s as [nin nout|k|k| |body args io|k|j r]; cbn [shape_wf value_outputs builder_count]; intros H.
+  - apply andb_prop in H. destruct H as [_ H]. exists nout. split; [lia|split; reflexivity].
+  - exists k. split; [lia|split; reflexivity].
+  - exists 1. split; [lia|split; reflexivity].
+  - exists 1. split; [lia|split; reflexivity].
+  - destruct (inst_len args body) as [n|] eqn:E; [|discriminate]. apply Z.eqb_eq in H. subst io.
+    exists n. split; [exact (inst_len_nonneg _ _ _ E)|split; reflexivity].
+  - exists k. split; [lia|split; reflexivity].
+  - apply andb_prop in H. destruct H as [H1 H2]. exists (j + r). split; [lia|split; reflexivity].
+Qed.
+Theorem builder_handle_iter s : shape_wf s = true ->
+  exists n, value_outputs s = Some n /\ iter_node (builder_count s) = Ok (map Z.of_nat (seq 0 (Z.to_nat n))).
+Proof.
+  intros H. destruct (builder_count_spec s H) as (n & Hn & Hv & Hb). exists n. split; [exact Hv|].
+  rewrite Hb. exact (iter_in_order n Hn).
+Qed.
+Theorem builder_handle_index s i : shape_wf s = true ->
+  exists n, value_outputs s = Some n /\ index_int (builder_count s) i = py_index n i.
+Proof.
+  intros H. destruct (builder_count_spec s H) as (n & Hn & Hv & Hb). exists n. split; [exact Hv|].
+  rewrite Hb. exact (int_index_python n i Hn).
+Qed.
